@@ -239,5 +239,5 @@ func msgBodyLines(l string) bool {
 func init() {
 	register("C01", &checkDef{fn: checkC01,
 		rule:        "E1 prefix-trie explorer on ParseSIPMsg over fragment tries (firstline·header*·blank·body, node at every byte): every suspended state reachable at a prefix by any schedule is resumed to every longer prefix and compared with a fresh one-shot parse (verdict, offset, and all caller-visible values when definitive); no-more-data tried as final-call flag at every node; non-trivial = message whose path had >=1 suspension and a definitive verdict",
-		quickBudget: 150 * time.Second, thorBudget: 40 * time.Minute})
+		quickBudget: 240 * time.Second, thorBudget: 40 * time.Minute})
 }
